@@ -34,6 +34,13 @@
      C15 for sessions carries events, verdict and state to any other fragmentation.
    - C02_stop_publishing_raises_finished / C02_stop_playback_raises_finished: stop emits deleteStream for the active stream, the
      client returns to Connected, and the server raises exactly the matching finished event and forgets the stream.
+   - C02_sessions_start, C02_connect_completes_decided, C02_connect_ready (ProtocolStart.v): the chain from two FRESHLY CREATED
+     sessions to the workflow theorems: server_new's control packets, read by a new client one per call, all succeed and leave it
+     Disconnected with linked chunk layers (the premises of the connect theorem); the connect exchange with every outcome decided
+     (names and version strings within AMF0's 16-bit length: no error alternative is left); after the accept, the client's window
+     and chunk-size announcements read by the server leave the pair Connected / connected with both directions linked - the
+     premises of C02_publish_completes / C02_play_completes.  C02_server_receives_chunk_size / C02_client_receives_chunk_size: a
+     Set Chunk Size announcement is applied by the peer's handle_input and the chunk layers are linked again.
    - C02_server_receives_message / C02_client_receives_message: the general step - any message one session sends (Set Chunk Size
      apart, which C02_link_preserved covers) is handled by the peer's handle_input as exactly that decoded message, after the
      acknowledgement prelude, with the chunk layers linked again.
@@ -41,7 +48,7 @@
    at the composed level (their per-session behaviour is C09/C10): the composed model
 *)
 From RML Require Import Model.Base Model.Utf8 Model.Float Model.Amf0 Model.Chunk Model.ChunkSer Model.ChunkDe Model.Messages Model.SessionCommon Model.Server Model.Client
-  Model.Interop Proofs.ChunkSerProofs Proofs.InteropProofs Proofs.SessionPartition Proofs.ClientPartition Proofs.InteropPartition Proofs.MetadataProofs Proofs.InteropMetadata Proofs.Transport Proofs.ServerProofs Proofs.SessionFrame Proofs.SessionTrace Proofs.ClientTrace Proofs.SessionTransport Proofs.ProtocolProofs Proofs.ProtocolFlow Proofs.FloatProofs Proofs.MessageProofs Proofs.ServerProofs.
+  Model.Interop Proofs.ChunkSerProofs Proofs.InteropProofs Proofs.SessionPartition Proofs.ClientPartition Proofs.InteropPartition Proofs.MetadataProofs Proofs.InteropMetadata Proofs.Transport Proofs.ServerProofs Proofs.SessionFrame Proofs.SessionTrace Proofs.ClientTrace Proofs.SessionTransport Proofs.ProtocolProofs Proofs.ProtocolFlow Proofs.ProtocolStart Proofs.ConfigProofs Proofs.FloatProofs Proofs.MessageProofs Proofs.ServerProofs.
 From Coq Require Import String.
 Local Open Scope N_scope.
 
@@ -154,7 +161,12 @@ Theorem C02_connect_accept_delivered : forall s c n app' trn app clock cclock,
     client_handle_input c b cclock = (c2, COk rs) /\
     rs = pre ++ [CPacket b1 false; CEvent CConnectionAccepted; CPacket b2 false] /\ cevents pre = [] /\
     cl_state c2 = Connected /\ cl_app c2 = Some app /\ lookup trn (cl_trs c2) = None /\
-    Link (sv_ser s2) (cl_de c2) /\ ser_ok (cl_ser c2) /\ s_max (cl_ser c2) = cc_chunk (cl_cfg c).
+    Link (sv_ser s2) (cl_de c2) /\ ser_ok (cl_ser c2) /\ s_max (cl_ser c2) = cc_chunk (cl_cfg c) /\
+    cl_cfg c2 = cl_cfg c /\ cl_next_tr c2 = cl_next_tr c /\ cl_stream c2 = cl_stream c /\
+    sv_de s2 = sv_de s /\ sv_ack s2 = sv_ack s /\ sv_streams s2 = sv_streams s /\ sv_next_stream s2 = sv_next_stream s /\ ser_ok (sv_ser s2) /\
+    (snd (ack_step (cl_ack c) (lenN b)) = None -> pre = [] /\ exists ser1,
+       send_message (cl_ser c) (MWindowAcknowledgement (cc_window (cl_cfg c))) cclock 0 false false = Ok (b1, ser1) /\
+       ChunkSer.set_max_chunk_size ser1 (cc_chunk (cl_cfg c)) 0 = Ok (b2, cl_ser c2)).
 Proof. exact connect_accept_delivered. Qed.
 
 Theorem C02_connect_completes : forall c s app clock sclock aclock cclock,
@@ -314,6 +326,82 @@ Example C02_play_run_example :
     cl_state c7 = Playing /\ cl_stream c7 = Some 1 /\ lookup 1 (sv_streams s4) = Some (StPlaying (str "key")).
 Proof. exact play_premises_satisfiable. Qed.
 
+Theorem C02_sessions_start : forall cfg ccfg clock k,
+  1 <= cfg_chunk cfg <= 2147483647 -> cfg_window cfg < 4294967296 -> cfg_bandwidth cfg < 4294967296 -> clock < 4294967296 ->
+  exists s0 rs c',
+    server_new cfg clock = (s0, ROk rs) /\ events rs = [] /\
+    cdeliver (client_new ccfg) (spackets rs) k = Some c' /\
+    cl_state c' = Disconnected /\ cl_trs c' = [] /\ cl_next_tr c' = 1 /\ cl_cfg c' = ccfg /\ cl_stream c' = None /\
+    Link (sv_ser s0) (cl_de c') /\ ser_ok (cl_ser c') /\ ser_ok (sv_ser s0) /\
+    ack_window (sv_ack s0) = None /\ sv_connected s0 = false /\ sv_next_req s0 = 0 /\ sv_next_stream s0 = 1 /\ sv_fms s0 = cfg_fms cfg /\
+    (cquiet (client_new ccfg) (spackets rs) k -> Link (cl_ser c') (sv_de s0)).
+Proof. exact sessions_start. Qed.
+
+Theorem C02_connect_ready : forall s c n app' trn app clock cclock k1 k2,
+  Link (sv_ser s) (cl_de c) -> Link (cl_ser c) (sv_de s) -> ser_ok (cl_ser c) -> ser_ok (sv_ser s) ->
+  lookup n (sv_reqs s) = Some (RConnection app' (u32_to_f64 trn)) -> trn < 4294967296 ->
+  lookup trn (cl_trs c) = Some (TConnection app) ->
+  accept_strings_ok s app' -> lenN (sv_fms s) <= 65535 -> lenN app' <= 65000 ->
+  clock < 4294967296 -> cclock < 4294967296 ->
+  1 <= cc_chunk (cl_cfg c) <= 2147483647 -> cc_window (cl_cfg c) < 4294967296 ->
+  exists b s2 c2 rs,
+    server_accept s n clock = (s2, ROk [SPacket b false]) /\
+    client_handle_input c b cclock = (c2, COk rs) /\ cevents rs = [CConnectionAccepted] /\
+    cl_state c2 = Connected /\ cl_app c2 = Some app /\ sv_connected s2 = true /\ sv_app s2 = Some app' /\
+  (quiet (cl_ack c) b ->
+  exists w1 w2, rs = [CPacket w1 false; CEvent CConnectionAccepted; CPacket w2 false] /\
+  exists s3 r3, server_handle_input s2 w1 k1 = (s3, ROk r3) /\ events r3 = [] /\
+  (quiet (sv_ack s2) w1 -> r3 = [] /\
+  exists s4 r4, server_handle_input s3 w2 k2 = (s4, ROk r4) /\ events r4 = [] /\
+  (quiet (sv_ack s3) w2 -> r4 = [] /\
+   Link (cl_ser c2) (sv_de s4) /\ Link (sv_ser s4) (cl_de c2) /\ ser_ok (cl_ser c2) /\ ser_ok (sv_ser s4) /\
+   sv_connected s4 = true /\ sv_app s4 = Some app' /\ sv_next_stream s4 = sv_next_stream s /\
+   cl_next_tr c2 = cl_next_tr c /\ cl_cfg c2 = cl_cfg c /\ ack_window (sv_ack s4) = Some (cc_window (cl_cfg c))))).
+Proof. exact connect_ready. Qed.
+
+Theorem C02_server_receives_chunk_size : forall s ser n ts b ser' clock,
+  Link ser (sv_de s) -> ser_ok (sv_ser s) -> 1 <= n <= 2147483647 -> ts < 4294967296 ->
+  ChunkSer.set_max_chunk_size ser n ts = Ok (b, ser') ->
+  exists s2 r, server_handle_input s b clock = (s2, ROk r) /\
+  events r = [] /\ same_core s s2 /\ Link ser' (sv_de s2) /\ ser_ok (sv_ser s2) /\
+  (quiet (sv_ack s) b -> r = [] /\ sv_ser s2 = sv_ser s /\ sv_ack s2 = fst (ack_step (sv_ack s) (lenN b))).
+Proof. exact server_receives_chunk_size. Qed.
+
+Theorem C02_client_receives_chunk_size : forall c ser n ts b ser' clock,
+  Link ser (cl_de c) -> ser_ok (cl_ser c) -> 1 <= n <= 2147483647 -> ts < 4294967296 ->
+  ChunkSer.set_max_chunk_size ser n ts = Ok (b, ser') ->
+  exists c2 r, client_handle_input c b clock = (c2, COk r) /\
+  cevents r = [] /\
+  (cl_cfg c2 = cl_cfg c /\ cl_next_tr c2 = cl_next_tr c /\ cl_trs c2 = cl_trs c /\ cl_state c2 = cl_state c /\
+   cl_app c2 = cl_app c /\ cl_stream c2 = cl_stream c) /\ Link ser' (cl_de c2) /\ ser_ok (cl_ser c2) /\
+  (quiet (cl_ack c) b -> r = [] /\ cl_ser c2 = cl_ser c /\ cl_ack c2 = fst (ack_step (cl_ack c) (lenN b))).
+Proof. exact client_receives_chunk_size. Qed.
+
+Example C02_start_quiet :
+  let cfg := {| cfg_fms := str "FMS/3,0,1,123"; cfg_chunk := 4096; cfg_bandwidth := 2500000; cfg_window := 2500000; cfg_bwdone := true |} in
+  let ccfg := {| cc_flash := str "v"; cc_buffer := 1000; cc_window := 2500000; cc_chunk := 4096; cc_tcurl := None |} in
+  match server_new cfg 0 with
+  | (_, ROk rs) => cquiet (client_new ccfg) (spackets rs) 1 /\ List.length (spackets rs) = 5%nat
+  | _ => False
+  end.
+Proof. exact start_quiet. Qed.
+
+Theorem C02_connect_completes_decided : forall c s app clock sclock aclock cclock,
+  Link (cl_ser c) (sv_de s) -> Link (sv_ser s) (cl_de c) -> ser_ok (cl_ser c) -> ser_ok (sv_ser s) ->
+  cl_state c = Disconnected -> strings_ok c app -> sizes_ok c app -> utf8_valid (strip_slash app) = true -> ack_window (sv_ack s) = None ->
+  utf8_valid (sv_fms s) = true -> lenN (sv_fms s) <= 65535 ->
+  clock < 4294967296 -> aclock < 4294967296 -> cclock < 4294967296 -> 1 <= cc_chunk (cl_cfg c) <= 2147483647 ->
+  exists b1 c1 s1 b2 s2 c2 rs pre w1 w2,
+    client_request_connection c app clock = (c1, COk [CPacket b1 false]) /\
+    server_handle_input s b1 sclock = (s1, ROk [SEvent (EvConnectionRequested (sv_next_req s) (strip_slash app))]) /\
+    server_accept s1 (sv_next_req s) aclock = (s2, ROk [SPacket b2 false]) /\
+    client_handle_input c1 b2 cclock = (c2, COk rs) /\
+    rs = pre ++ [CPacket w1 false; CEvent CConnectionAccepted; CPacket w2 false] /\ cevents pre = [] /\
+    cl_state c2 = Connected /\ cl_app c2 = Some app /\
+    sv_connected s2 = true /\ sv_app s2 = Some (strip_slash app) /\
+    Link (sv_ser s2) (cl_de c2) /\ s_max (cl_ser c2) = cc_chunk (cl_cfg c).
+Proof. exact connect_completes_decided. Qed.
+
 Example C02_scenario_publish :
   filter is_media_or_lifecycle (server_events_of (ex_run ex_publish_ops)) =
   [ EvConnectionRequested 0 (str "live");
@@ -354,3 +442,8 @@ Print Assumptions C02_publish_completes.
 Print Assumptions C02_play_completes.
 Print Assumptions C02_stop_publishing_raises_finished.
 Print Assumptions C02_stop_playback_raises_finished.
+Print Assumptions C02_sessions_start.
+Print Assumptions C02_connect_ready.
+Print Assumptions C02_server_receives_chunk_size.
+Print Assumptions C02_client_receives_chunk_size.
+Print Assumptions C02_connect_completes_decided.
